@@ -131,6 +131,39 @@ def gen_concurrent_plan(rng, i: int, tier: str) -> dict:
     return plan
 
 
+def gen_process_history_plan(rng, i: int, tier: str) -> dict:
+    """Round trips that share a process with other round trips: (two-keys) one cache holding two root keys with different KDF hashes,
+    used one after the other; (dc-restart) the key service restarts on another dynamic port between two online calls."""
+    kind = ("two-keys", "dc-restart")[i % 2]
+    sid = offline.sid_shape(1 + i % 15, i // 15)
+    l0 = rng.randrange(330, 480)
+    ft = (l0 * 1024 + rng.randrange(0, 1000)) * B + rng.randrange(B)
+    h0, h1 = offline.HASHES[i % 4], offline.HASHES[(i + 1 + (i // 4) % 3) % 4]
+    plan = {"seed": rng.getrandbits(31), "clock_ft": ft, "root_keys": [[i % 7, h0, offline.SECRETS[i % 3]], [7 + i % 5, h1, offline.SECRETS[(i // 3) % 3]]],
+            "caller_sids": [sid], "ctx": {"kind": "stub", "legs": 2, "sig": 16}, "dc": {"omit_l2_at_31": rng.random() < 0.5, "domain": "d.test", "forest": "forest.test",
+                                                                                   "gkdi_port": rng.randrange(1024, 65000)},
+            "delivery": None, "ops": [], "pmode": "offline" if kind == "two-keys" else "online-seed", "umode": "online", "family": kind}
+    ops = plan["ops"]
+    fl = lambda: rng.choice(("sync", "async"))  # noqa: E731
+    if kind == "two-keys":
+        first = rng.randrange(2)
+        ops.append({"op": "load_key", "rk": 0})
+        ops.append({"op": "load_key", "rk": 1})
+        for rk in (first, 1 - first, first):
+            ops.append({"op": "protect", "fl": fl(), "sid": sid, "rk": rk, "net": "offline", "data": rng.choice((0, 9, 40))})
+        for k in (2, 3, 4):
+            ops.append({"op": "unprotect", "fl": fl(), "net": "online", "blob": {"from_op": k, "relayout": False}, "cache": "fresh"})
+            ops.append({"op": "unprotect", "fl": fl(), "net": "offline", "blob": {"from_op": k, "relayout": False}})
+    else:
+        ops.append({"op": "protect", "fl": fl(), "sid": sid, "rk": rng.choice((0, None)), "net": "online", "data": 12, "cache": "fresh"})
+        ops.append({"op": "unprotect", "fl": fl(), "net": "online", "blob": {"from_op": 0, "relayout": False}, "cache": "fresh"})
+        ops.append({"op": "dc_restart", "port": rng.randrange(1024, 65000)})
+        ops.append({"op": "unprotect", "fl": fl(), "net": "online", "blob": {"from_op": 0, "relayout": False}, "cache": "fresh"})
+        ops.append({"op": "protect", "fl": fl(), "sid": sid, "rk": rng.choice((0, None)), "net": "online", "data": 12, "cache": "fresh"})
+        ops.append({"op": "unprotect", "fl": fl(), "net": "online", "blob": {"from_op": 4, "relayout": False}, "cache": "fresh"})
+    return plan
+
+
 def judge(plan, tr: P.Trace):
     probes: t.Dict[str, int] = {}
     rk = tr.root_keys[0]
@@ -139,6 +172,11 @@ def judge(plan, tr: P.Trace):
         return common.violation("C01", "dc-rejected-request", prots[0].op["fl"], "", "", "", f"reference DC saw a non-conforming request: {tr.dc.all_violations[:2]}"), probes
     probes["two_protects_one_cache"] = int(len(prots) > 1)
     for prot in prots:
+        if plan.get("family") in ("two-keys", "dc-restart") and prot.outcome.kind == "ok":
+            try:  # (several root keys in play: the blob says which one it was made for)
+                rk = next(r for r in tr.root_keys if r.root_key_id == cms.parse_blob(prot.outcome.value)["key_identifier"]["root_key_id"])
+            except Exception:  # noqa: BLE001
+                rk = tr.root_keys[prot.op.get("rk") or 0]
         v = _judge_protect(plan, tr, prot, rk, probes)
         if v:
             return v, probes
@@ -200,18 +238,21 @@ class C01(common.Check):
             "(twice)], both flavours on either side, PRNG TCP segmentation, DC envelope shape knob (L2 key omitted at L2=31), 4 hashes x "
             "{DH, P256, P384}, SIDs with 1..15 sub-authorities incl. 0 and 2^32-1, plaintext lengths 0..65536 (1 MiB in thorough). Plus round trips "
             "whose halves overlap with other calls: 2..3 protects from caller threads of one process (deterministic thread scheduler), and blobs "
-            "of different positions of one L0 unprotected at the same time (async, oldest first) on a cache that starts empty. "
+            "of different positions of one L0 unprotected at the same time (async, oldest first) on a cache that starts empty; one cache holding two root keys with different KDF hashes used in turn; the key "
+            "service restarting on another dynamic port between two online calls. "
             "Non-trivial = every plan (distinct clock / path / shape combination); distinct = distinct plan.")
     components = {"client": "real (public API both flavours, KeyCache, RPC client, codecs, crypto)", "DC": "model (RefDC, independent derivation)",
                   "clock / entropy / network": "simulated", "security context": "stub (StubCtx)", "cross-check": "ref.cms decrypts every emitted blob"}
     assumptions = ["client and DC share the simulated clock in C01 plans (skew is C17's subject)"]
-    required_fired = ("mode_pub", "mode_nonce", "pos_l2_31", "relayout", "relayout_by_library", "roundtrip_ok", "pt_big", "two_protects_one_cache", "moving_clock", "l0_boundary_during_protect", "concurrent_threads", "concurrent_async", "thread_overlap")
+    required_fired = ("mode_pub", "mode_nonce", "pos_l2_31", "relayout", "relayout_by_library", "roundtrip_ok", "pt_big", "two_protects_one_cache", "moving_clock", "l0_boundary_during_protect", "concurrent_threads", "concurrent_async", "thread_overlap", "two_root_keys_one_cache", "dc_restarted")
 
     def cases(self, tier, seed):
         rng = prng.stream(seed, "C01")
         n = 2400 if tier == "quick" else 120000
         rng2 = prng.stream(seed, "C01", "concurrent")
-        return [gen_plan(rng, i, tier) for i in range(n)] + [gen_concurrent_plan(rng2, i, tier) for i in range(400 if tier == "quick" else 20000)]
+        rng3 = prng.stream(seed, "C01", "process-history")
+        return [gen_plan(rng, i, tier) for i in range(n)] + [gen_concurrent_plan(rng2, i, tier) for i in range(400 if tier == "quick" else 20000)] + \
+            [gen_process_history_plan(rng3, i, tier) for i in range(300 if tier == "quick" else 15000)]
 
     def run_case(self, case):
         tr = P.execute_plan(case)
@@ -221,6 +262,10 @@ class C01(common.Check):
             probes["thread_overlap"] = tr.world.stats.get("toverlap", 0)
         if case.get("family") == "concurrent-async":
             probes["concurrent_async"] = 1
+        if case.get("family") == "two-keys":
+            probes["two_root_keys_one_cache"] = 1
+        if case.get("family") == "dc-restart":
+            probes["dc_restarted"] = tr.world.stats.get("dc_restart", 0)
         if case.get("clock_tick_ns"):
             probes["moving_clock"] = 1
             d0 = case["clock_ft"] % (1024 * B)
